@@ -753,6 +753,14 @@ def strings_family():
         body = f'd0.Setting = (HASH("{nm}") % 256) + 1\nd1.Setting = HASH("{nm}")\nd2.Setting = GrowLights["{nm}"].On.Maximum\nGrowLights["{nm}"].On = HASH("{nm}") > 0'
         out.append((f"st_fold_{k}", corpus._loop(body)))
     out.append(("st_label_like_names", label_like_names_program()))
+    # symbolic constants inside compile-time comparisons and arithmetic: the folder sees text in verbose mode, numbers in compact mode
+    crc = ic10load.signed_crc32("Furnace")
+    out.append(("st_fold_compare", corpus._loop(
+        f'if HASH("Furnace") == {crc}:\n    d0.Setting = 1\nelse:\n    d0.Setting = 2\n'
+        f'if HASH("Furnace") != {crc}:\n    d1.Setting = 1\nelse:\n    d1.Setting = 2\n'
+        f'if {crc} == HASH("Furnace"):\n    d2.Setting = 1\n'
+        f'd3.Setting = (HASH("Furnace") == HASH("Furnace")) + (HASH("Furnace") != {crc + 1})\n'
+        'd4.Setting = STR("Hi") + 1\nd5.Setting = -STR("Hi")\nxa = STR("AB")\ndb.Setting = xa * 2 + (STR("Hi") == 18537)')))
     out.append(("st_enum", corpus._loop("d2.Setting = Color.Red + Color.Green\nd1.Setting = d0.Mode + LogicBatchMethod.Maximum")))
     return out
 
